@@ -45,6 +45,7 @@ def main():
             print(f"{p} exit={r.returncode} {results[p][1]}  [{time.time() - t0:.0f}s]", flush=True)
     finally:
         sh(["git", "-C", REPO, "checkout", "--", "."])
+        sh([sys.executable, os.path.join(VERIF, "tools", "extract.py")])   # Gen/ back to the clean tree
         st = sh(["git", "-C", REPO, "status", "--porcelain", "--untracked-files=no"]).stdout.strip()
         if st:
             print("WARNING: /repo not clean after revert:\n" + st)
